@@ -148,8 +148,15 @@ pub fn eq_case() -> impl Strategy<Value = EqCase> {
         2 => (0.01f32.ln()..100f32.ln()).prop_map(|x: f32| x.exp()),
         1 => Just(0.0f32),
     ];
-    (any::<bool>(), [0.25f32..2.0, 0.25f32..2.0, 0.25f32..2.0, 0.25f32..2.0, 0.25f32..2.0], 0usize..5, delta, any::<bool>(), any::<bool>())
-        .prop_map(|(ltwh, mut base, field, d, neg, angle_none)| {
+    (any::<bool>(), [0.25f32..2.0, 0.25f32..2.0, 0.25f32..2.0, 0.25f32..2.0, 0.25f32..2.0], 0usize..5, delta, any::<bool>(), any::<bool>(), prop_oneof![2 => Just(1.0f32), 1 => 500.0f32..8000.0])
+        .prop_map(|(ltwh, mut base, field, d, neg, angle_none, far)| {
+            // the coordinates that are NOT perturbed may be large (a box far from the origin): the
+            // perturbed one stays small so that its f32 difference is exact
+            for pos in 0..2 {
+                if pos != field {
+                    base[pos] *= far;
+                }
+            }
             if ltwh {
                 base[4] = (base[4] / 4.0).min(0.5); // confidence, room for +-delta inside [0,1]
             }
